@@ -1,5 +1,6 @@
 import LoraVerif.Model.PhyState
 import LoraVerif.Model.Chip
+import LoraVerif.Model.ChipIrq
 import Driver.C13
 /-! Suite C14: model = `Model.Phy` (`LoRa<RK>` over the SX126x / SX127x models); the "spec" column is
 the verdict of the invariants I1–I5 evaluated on the run (`-` = all hold).  Op lines:
@@ -93,9 +94,10 @@ def radioReported : Out ApiResult → Bool
 
 /-- run a sequence: per call the line to print, and the first invariant that fails -/
 def runSeq {σ μ : Type} (rk : RadioKindOps σ μ) (kind : Kind) (needs : Needs) (digest : Bool)
-    (steps : List (Step μ)) (s0 : DriverState σ × World) (t0 : ChipTrack) : List String × Option String := Id.run do
+    (steps : List (Step μ)) (s0 : DriverState σ × World) (t0 : ChipTrack) (it0 : IrqTrack := {}) : List String × Option String := Id.run do
   let mut s := s0
   let mut t := t0
+  let mut it := it0
   let mut out : List String := []
   let mut bad : Option String := none
   let mut i := 0
@@ -105,6 +107,12 @@ def runSeq {σ μ : Type} (rk : RadioKindOps σ μ) (kind : Kind) (needs : Needs
     let (o, s') := apiStep rk st.call st.env s
     let log := s'.2.log
     let t' := track kind needs t log
+    -- the IRQ routing programmed last (Model/ChipIrq.lean); `listen` starts an RSSI-only reception
+    -- of which no IRQ routing is required
+    let it1 := irqTrack kind it log
+    let it' : IrqTrack := match st.call with
+      | .listen _ _ => { it1 with rxStartedWrongIrq := it.rxStartedWrongIrq }
+      | _ => it1
     let tr := showLog log
     out := out ++ [s!"{showRes o} {if digest then fnvStr tr else tr} {showMode s'.1.radioMode},{s'.1.coldStart},{s'.1.calibrateImage}"]
     if bad.isNone then
@@ -112,6 +120,9 @@ def runSeq {σ μ : Type} (rk : RadioKindOps σ μ) (kind : Kind) (needs : Needs
       if t'.commandedAsleep then bad := some s!"I1-commanded-asleep@call{i}"
       -- I3: nothing was started with a required item unprogrammed since the last loss
       else if t'.startedUnprogrammed then bad := some s!"I3-started-unprogrammed@call{i}"
+      -- I3 (mode-specific): the IRQ routing programmed last was the one for the operation started
+      else if it'.startedWrongIrq || it'.rxStartedWrongIrq then
+        bad := some s!"I3-started-with-irq-mask-of-another-operation@call{i}"
       -- I2: configuration lost (bring-up items missing) => the driver knows (cold_start)
       else if !(t'.items.covers { needs.rx with modulation := false, frequency := false }) && !s'.1.coldStart then
         bad := some s!"I2-config-lost-but-not-cold_start@call{i}"
@@ -122,6 +133,7 @@ def runSeq {σ μ : Type} (rk : RadioKindOps σ μ) (kind : Kind) (needs : Needs
       else if isInvalidMode o && !log.isEmpty then bad := some s!"I5-chip-commanded-by-refused-call@call{i}"
     s := s'
     t := t'
+    it := it'
     -- a panic or a dropped non-droppable future ends the scenario
     match o with
     | .panic _ => break
@@ -227,7 +239,7 @@ def handleSeq (digest : Bool) (rest : String) (inv : Bool := false) : String :=
             let t1 := track .sx126x needs {} s1.2.log
             match o0 with
             | .ok _ =>
-              let (lines, bad) := runSeq rk .sx126x needs digest steps s1 t1
+              let (lines, bad) := runSeq rk .sx126x needs digest steps s1 t1 (irqTrack .sx126x {} s1.2.log)
               if inv then s!"{match bad with | some b => b | none => "ok"}|ok" else
               s!"{String.intercalate " ; " lines}|{match bad with | some b => b | none => "-"}"
             | _ => "new-failed|-"
@@ -244,7 +256,7 @@ def handleSeq (digest : Bool) (rest : String) (inv : Bool := false) : String :=
           let t1 := track .sx127x needs {} s1.2.log
           match o0 with
           | .ok _ =>
-            let (lines, bad) := runSeq rk .sx127x needs digest steps s1 t1
+            let (lines, bad) := runSeq rk .sx127x needs digest steps s1 t1 (irqTrack .sx127x {} s1.2.log)
             if inv then s!"{match bad with | some b => b | none => "ok"}|ok" else
             s!"{String.intercalate " ; " lines}|{match bad with | some b => b | none => "-"}"
           | _ => "new-failed|-"
